@@ -29,7 +29,7 @@ LEVEL = 'fault_enumeration'
 RULE = ('Published histories v0..vn (n <= 5; Packages-shaped paragraphs incl. non-ASCII; reverted content, identical consecutive '
         'versions and the empty file included) served from a file:// mirror in a private temp dir, with a SHA1 or SHA256 '
         'index x local state {each v_i, current, foreign, absent} x fault {none, each patch corrupted / truncated / missing, '
-        'patch names in 5 schemes (sequential, counting down, unpadded numbers, hash-like, time stamps - the order of the History lines, not of the names, is the order of application), Index missing / unparsable / incomplete / the real Index damaged (CRLF, truncated, stray or appended blank-like lines), full file missing, open/.new fails, k-th write fails for every k, close '
+        'the three index fields in any order and among unknown fields, patch names in 5 schemes (sequential, counting down, unpadded numbers, hash-like, time stamps - the order of the History lines, not of the names, is the order of application), Index missing / unparsable / incomplete / the real Index damaged (CRLF, truncated, stray or appended blank-like lines), full file missing, open/.new fails, k-th write fails for every k, close '
         'fails, rename vetoed, OSError at every executed line of the four functions}.  Every (scenario, fault, position) is '
         'one evaluation; after every transient fault (and after plain successes) the call is REPEATED without faults - it must converge, '
         'resp. find the file current with nothing but the Index fetched; and the mirror ADVANCES between two calls (v_k published, '
@@ -52,14 +52,16 @@ FLOORS = {'quick': {'nontrivial': 1500, 'monitors': {'M.outcome': 6000, 'T.trace
                                  'fault-fired:trunc-patch': 20, 'fault-fired:inconsistent-patch': 20, 'converged-by-chain>=2': 25, 'alg:sha256': 1000, 'alg:sha1': 1000,
                                  'damaged-index:malformed': 100, 'damaged-index:grammatical': 40, 'converged-by-chain>=2-with-names-not-in-text-order': 15,
                                  'next-call:after-success': 230, 'next-call:after-error': 1700, 'advance:second-stage-by-chain': 60,
-                                 'call-spelling:deprecated-alias-or-keywords': 350}},
+                                 'call-spelling:deprecated-alias-or-keywords': 350,
+                                 'index-field-order:other-than-current-history-patches': 2500, 'index-field-order:patches-before-history': 1000}},
           'thorough': {'nontrivial': 60000, 'monitors': {'M.outcome': 250000, 'T.trace': 250000, 'M.next-call': 190000, 'M.advance': 12000},
                        'counters': {'fault-fired:write-fail': 20000, 'fault-fired:rename-veto': 1500, 'fault-fired:close-fail': 1500,
                                     'fault-fired:open-fail': 1500, 'fault-fired:failpoint': 80000, 'fault-fired:corrupt-patch': 800,
                                     'fault-fired:trunc-patch': 800, 'fault-fired:inconsistent-patch': 800, 'converged-by-chain>=2': 1500, 'alg:sha256': 40000,
                                     'alg:sha1': 40000, 'damaged-index:malformed': 7000, 'damaged-index:grammatical': 3000, 'converged-by-chain>=2-with-names-not-in-text-order': 1000,
                                     'next-call:after-success': 23000, 'next-call:after-error': 170000, 'advance:second-stage-by-chain': 6000,
-                                    'call-spelling:deprecated-alias-or-keywords': 30000}}}
+                                    'call-spelling:deprecated-alias-or-keywords': 30000,
+                                    'index-field-order:other-than-current-history-patches': 250000, 'index-field-order:patches-before-history': 100000}}}
 LEVEL_TEXT = ('Runtime monitoring with fault enumeration: for every generated (history, local state) the call is repeated once per '
               'fault position - every write index, every executed source line of the four functions, every patch of the chain - '
               'against a file:// mirror; an outcome oracle and a trace specification over audit events decide each execution.  '
@@ -131,10 +133,11 @@ def cases(ctx):
         # layout of the Index: real ones use one blank; the format allows any run of blanks/tabs
         ilayout = [r.choice([' ', ' ', '  ', '\t', ' \t', '   ']), r.choice([' ', ' ', '  ', '\t', '     '])]
         pnames = r.choice(PNAME_SCHEMES)
+        forder = r.choice(['CHP', 'CHP', 'CPH', 'PHC', 'HPC', 'PCH', 'HCP', 'xCyHzP', 'PzHxC', 'yHCP'])
         if len(vs) >= 3:
             for _ in range(6):
                 k = r.randint(2, len(vs) - 1)
-                yield {'kind': 'advance', 'versions': vs, 'alg': alg, 'k': k, 'ilayout': ilayout, 'pnames': pnames,
+                yield {'kind': 'advance', 'versions': vs, 'alg': alg, 'k': k, 'ilayout': ilayout, 'pnames': pnames, 'forder': forder,
                        'start': r.choice(['v%d' % i for i in range(k)] + ['foreign', 'absent'])}
         starts = ['v%d' % i for i in range(n)] + ['current', 'foreign', 'absent']
         for start in starts:
@@ -154,7 +157,7 @@ def cases(ctx):
                 if r.random() < .4:
                     faults.append({'kind': 'missing-patch', 'j': j})
             for fault in faults:
-                yield {'kind': 'update', 'versions': vs, 'alg': alg, 'start': start, 'fault': fault, 'ilayout': ilayout, 'pnames': pnames}
+                yield {'kind': 'update', 'versions': vs, 'alg': alg, 'start': start, 'fault': fault, 'ilayout': ilayout, 'pnames': pnames, 'forder': forder}
 
 
 # ---------------------------------------------------------------------------
@@ -239,7 +242,7 @@ def pname(scheme, i):
     return 'p2024-0%d-%02d-%04d.%02d' % (1 + i // 3, 28 - 9 * (i % 3), 1200 - 100 * i, i)   # time stamps, not monotone as text
 
 
-def publish(root, vs, alg, fault, ilayout=(' ', ' '), scheme=None):
+def publish(root, vs, alg, fault, ilayout=(' ', ' '), scheme=None, forder=None):
     indent, gap = ilayout
     os.makedirs(os.path.join(root, 'Packages.diff'))
     cur = ''.join(vs[-1]).encode('utf-8')
@@ -261,7 +264,14 @@ def publish(root, vs, alg, fault, ilayout=(' ', ' '), scheme=None):
         vb = ''.join(vs[i]).encode('utf-8')
         hist.append('%s%s%s%d%s%s\n' % (indent, _sha(vb, alg), gap, len(vb), gap, name))
         pat.append('%s%s%s%d%s%s\n' % (indent, _sha(sb, alg), gap, len(sb), gap, name))
-    idx = '%s-Current: %s %d\n%s-History:\n%s%s-Patches:\n%s' % (pre, _sha(cur, alg), len(cur), pre, ''.join(hist), pre, ''.join(pat))
+    # the three fields in any order (real indexes: Current, History, Patches - the format does not promise it), optionally
+    # among fields the reader does not know
+    sections = {'C': '%s-Current: %s %d\n' % (pre, _sha(cur, alg), len(cur)),
+                'H': '%s-History:\n%s' % (pre, ''.join(hist)),
+                'P': '%s-Patches:\n%s' % (pre, ''.join(pat)),
+                'x': 'X-Patch-Precedence: merged\n', 'y': 'Canonical-Path: dists/sid/main/binary-amd64/Packages.diff\n',
+                'z': '%s-Download:\n%s' % (pre, ''.join(l.replace('\n', '.gz\n') for l in pat))}
+    idx = ''.join(sections[c] for c in (forder or 'CHP'))
     ipath = os.path.join(root, 'Packages.diff', 'Index')
     kind = fault['kind']
     if kind == 'no-index':
@@ -403,7 +413,7 @@ def run_advance(ctx, case):
         for stage, upto in enumerate((k, len(vs))):
             if os.path.exists(root):
                 shutil.rmtree(root)
-            publish(root, vs[:upto], alg, {'kind': 'none'}, tuple(case.get('ilayout', (' ', ' '))), case.get('pnames'))
+            publish(root, vs[:upto], alg, {'kind': 'none'}, tuple(case.get('ilayout', (' ', ' '))), case.get('pnames'), case.get('forder'))
             target = ''.join(vs[upto - 1])
             before = None
             if os.path.exists(local):
@@ -449,7 +459,7 @@ def run_case(ctx, case):
     d = ctx.tmpdir()
     try:
         root = os.path.join(d, 'mirror')
-        publish(root, case['versions'], case['alg'], fault, tuple(case.get('ilayout', (' ', ' '))), case.get('pnames'))
+        publish(root, case['versions'], case['alg'], fault, tuple(case.get('ilayout', (' ', ' '))), case.get('pnames'), case.get('forder'))
         os.makedirs(os.path.join(d, 'local'))
         os.makedirs(os.path.join(d, 'tmp'))
         if fault['kind'] == 'write-fail' and fault['k'] == 'all':
@@ -483,6 +493,12 @@ def _one(ctx, case, d, count_only=False):
     vs, alg, start, fault = case['versions'], case['alg'], case['start'], case['fault']
     kind = fault['kind']
     ctx.count('alg:' + alg)
+    fo = ''.join(c for c in (case.get('forder') or 'CHP') if c in 'CHP')
+    ctx.count('index-field-order:' + fo)
+    if fo != 'CHP':
+        ctx.count('index-field-order:other-than-current-history-patches')
+    if fo.index('P') < fo.index('H'):
+        ctx.count('index-field-order:patches-before-history')
     ctx.count('index-indent:%r' % (case.get('ilayout', [' '])[0],))
     ctx.count('fault:' + kind)
     ctx.count('start:' + ('vi' if start.startswith('v') else start))
